@@ -831,6 +831,24 @@ type Batch struct {
 	Arr  [3]Chain          `valid:"required"`
 }
 
+// EmbU / EmbP / WithEmb (round 14): embedded structs without a marker are fields without a marker.
+type EmbU struct {
+	E string `valid:"required"`
+	X int    `valid:"le=3"`
+}
+
+type EmbP struct {
+	Q string `valid:"required"`
+	Y int
+}
+
+type WithEmb struct {
+	EmbU
+	*EmbP
+	Name string `valid:"required"`
+	Leaf `valid:"exist"`
+}
+
 type namedCase struct {
 	v     interface{}
 	desc  string
@@ -918,6 +936,9 @@ func namedCases() []namedCase {
 			namedCase{v: &Batch{ByID: byID, Rows: rows[:3], Last: &Chain{}}, desc: fmt.Sprintf("Batch with a map of %d violating entries first", len(byID))},
 			namedCase{v: map[string]*Batch{"only": b}, desc: fmt.Sprintf("map[string]*Batch, %d violating rows", n)})
 	}
+	out = append(out, namedCase{v: &WithEmb{EmbU: EmbU{X: 9}, EmbP: &EmbP{Y: 1}, Name: "n", Leaf: leafBAD}, desc: "WithEmb: violating untagged embedded struct and pointer, marked embedded Leaf"},
+		namedCase{v: []WithEmb{{EmbU: EmbU{E: "e", X: 9}, Leaf: leafOK}, {EmbP: &EmbP{Q: "", Y: 2}}}, desc: "[]WithEmb"},
+		namedCase{v: map[string]*WithEmb{"k": {EmbU: EmbU{X: 5}, EmbP: &EmbP{Y: 3}}}, desc: "map[string]*WithEmb"})
 	add("unmarked only", Parent{Name: "n", M: okMid, UM: &badMid, AM: [2]*Mid{&okMid, &okMid}, MM: map[string]*Mid{"a": &okMid}, Embedded: Embedded{"e"}})
 	return out
 }
